@@ -66,23 +66,37 @@ def r1(ctx):
               "the largest payload that send() does not fragment fits alone into an empty datagram (else it stays queued for ever)",
               lambda m, c, i=i: c.size_alone(m, i, m["T_frag"]) <= m["CAPS"][i],
               lambda m, c, i=i: {"T_frag": m["T_frag"], "accounted_size_alone": c.size_alone(m, i, m["T_frag"]), "CAP": m["CAPS"][i], "guard": norm(c.guards[i]["if"].test)}, bpi)
-        sweep(ctx, "C05.R1", "L2[%s] F + FRAGMENT_OVERHEAD + overhead(1) <= CAP" % tag,
-              "an intermediate fragment (with its prefix) fits alone into an empty datagram",
-              lambda m, c, i=i: c.size_alone(m, i, max(m["F_set"]) + fo) <= m["CAPS"][i],
-              lambda m, c, i=i: {"F": m["F_set"], "FRAGMENT_OVERHEAD": fo, "accounted_size_alone": c.size_alone(m, i, max(m["F_set"]) + fo), "CAP": m["CAPS"][i]}, bpi)
-        sweep(ctx, "C05.R1", "L3[%s] (L_last - 1) + FRAGMENT_OVERHEAD + overhead(1) <= CAP" % tag,
-              "the largest last fragment (with its prefix) fits alone into an empty datagram",
-              lambda m, c, i=i: c.size_alone(m, i, (m["L_last"] - 1) + fo) <= m["CAPS"][i],
-              lambda m, c, i=i: {"L_last": m["L_last"], "FRAGMENT_OVERHEAD": fo, "accounted_size_alone": c.size_alone(m, i, (m["L_last"] - 1) + fo), "CAP": m["CAPS"][i]}, bpi)
+        if cap.build_shape:
+            sweep(ctx, "C05.R1", "L2[%s] F + FRAGMENT_OVERHEAD + overhead(1) <= CAP" % tag,
+                  "an intermediate fragment (with its prefix) fits alone into an empty datagram",
+                  lambda m, c, i=i: c.size_alone(m, i, max(m["F_set"]) + fo) <= m["CAPS"][i],
+                  lambda m, c, i=i: {"F": m["F_set"], "FRAGMENT_OVERHEAD": fo, "accounted_size_alone": c.size_alone(m, i, max(m["F_set"]) + fo), "CAP": m["CAPS"][i]}, bpi)
+            sweep(ctx, "C05.R1", "L3[%s] (L_last - 1) + FRAGMENT_OVERHEAD + overhead(1) <= CAP" % tag,
+                  "the largest last fragment (with its prefix) fits alone into an empty datagram",
+                  lambda m, c, i=i: c.size_alone(m, i, (m["L_last"] - 1) + fo) <= m["CAPS"][i],
+                  lambda m, c, i=i: {"L_last": m["L_last"], "FRAGMENT_OVERHEAD": fo, "accounted_size_alone": c.size_alone(m, i, (m["L_last"] - 1) + fo), "CAP": m["CAPS"][i]}, bpi)
         sweep(ctx, "C05.R1", "Lc[%s] count guard admits a first message" % tag,
               "an empty datagram always admits one message",
               lambda m, c, i=i: m["COUNT_CAPS"][i] is None or m["COUNT_CAPS"][i] >= 1,
               lambda m, c, i=i: {"count_cap": m["COUNT_CAPS"][i]}, bpi)
-    sweep(ctx, "C05.R1", "L4 F >= 1", "the split loop makes progress and produces no empty fragment",
-          lambda m, c: m["F"] >= 1 and len(m["F_set"]) == 1, lambda m, c: {"F": m["F_set"]}, bld)
-    sweep(ctx, "C05.R1", "L5 a payload that is not the last fragment is longer than F",
-          "when the last-fragment test fails the remainder is at least one full slice, so the loop never emits a short intermediate fragment",
-          lambda m, c: m["L_last"] >= 1, lambda m, c: {"L_last": m["L_last"]}, bld)
+    from .capacity import split_sweep
+    stats, finds = split_sweep(ctx)
+    what = "length abstraction of FragmentSender.build over %d payload lengths at %d MTUs (every boundary of the split; %s)" % (
+        stats["lengths"], stats["mtus"], "all lengths of four periods at MTUs 512/1096/1097/1500" if ctx.tier == "thorough" else "boundary lengths")
+    for kind, name, why in (("too_big", "S1 every fragment the split produces fits alone into an empty datagram", "a fragment that is never admitted stays queued for ever"),
+                            ("nonterminating", "S2 the split loop terminates", "build() must return"),
+                            ("raises", "S3 the split raises only above the fragmentation limit", "a payload within the limit is never refused")):
+        f = finds[kind]
+        ctx.check(not f, "C05.R1", bld, name, why + " - " + what,
+                  witness={"failing_cases": len(f), "first": [{"mtu": x[0], "payload_length": x[1], "detail": x[2]} for x in f[:3]]})
+    if cap.build_shape:
+        sweep(ctx, "C05.R1", "L4 F >= 1", "the split loop makes progress and produces no empty fragment",
+              lambda m, c: m["F"] >= 1 and len(m["F_set"]) == 1, lambda m, c: {"F": m["F_set"]}, bld)
+        sweep(ctx, "C05.R1", "L5 a payload that is not the last fragment is longer than F",
+              "when the last-fragment test fails the remainder is at least one full slice, so the loop never emits a short intermediate fragment",
+              lambda m, c: m["L_last"] >= 1, lambda m, c: {"L_last": m["L_last"]}, bld)
+    else:
+        ctx.note("FragmentSender.build: the if/else shape of the split loop is not recognised; L2-L5 are decided by the length abstraction only")
     # the prefix really has FRAGMENT_OVERHEAD bytes (used by L2/L3)
     from engine.embedded import fmt_size
     ctx.check(fmt_size(cap.prefix_site.fmt) == fo, "C05.R1", bld, "calcsize(fragment prefix) == FRAGMENT_OVERHEAD", "the accounted prefix size is the real one",
